@@ -125,8 +125,9 @@ def episode(g, r, e, s, sref, fam, name, kk, mech, bs, shape, multi, keys):
     # ---- perturbation: the ciphertext / signature handed to the operation under test is damaged (cut short, or one bit flipped): whatever the terminal
     # call answers, an operation that FAILED is gone afterwards (statement: "an operation that finished or failed is gone")
     damage = {}
-    if fam in ("dec", "verify") and r.random() < 0.3:
+    if fam in ("dec", "verify") and r.random() < 0.4:
         x = r.random()
+        if shape in ("pad", "aead") and r.random() < 0.5: x = 0.9      # right length, wrong content: padding / tag check fails at the very end of the operation
         if x < 0.6: damage["trunc"] = r.choice([0, 1, 5, 12, 15, 16, 17, 31, 32])
         if x >= 0.4: damage["flip"] = r.randrange(8 * 4096)
     def SRC(**kw):
